@@ -20,7 +20,8 @@ from contracts.c05_parse import LoaderT, yaml_doc, file_of
 from contracts import c05_cli  # noqa: F401  (contracts of ensure_config_section / set_config_value)
 from contracts.c06_output import Violations, rendering
 from contracts.c10_orchestrator import OrchT, Viols, S_out, S_gs, rules_of, fin_all
-from contracts.c07_parallel import OrchInitT, sequential, project_config_loadable
+from contracts.c07_parallel import OrchInitT, sequential, project_config_loadable, goes_parallel, pool_out, workers_of
+from contracts.c10_orchestrator import walk_files, ready
 
 U = "src/cli/utils.py::"
 SH = "src/cli/linters/shared.py::"
@@ -177,6 +178,12 @@ class ExecuteLintingOnPaths:
     def ensures_nothing_to_lint(path_objs, result):
         return implies(len(dirs_of(path_objs)) == 0 and len(files_of(path_objs)) == 0, len(result) == 0)
 
+    def ensures_one_directory(orchestrator, path_objs, recursive, parallel, result, old):
+        # ONE directory (no explicit files): the files linted are those the walk collects FOR THE GIVEN recursive flag,
+        # with --parallel as without it; and the parallel result is composed as lint_directory_parallel documents
+        return implies(len(files_of(path_objs)) == 0 and len(dirs_of(path_objs)) == 1,
+                       result == one_directory_result(old.orchestrator, dirs_of(path_objs)[0], recursive, parallel))
+
     def inv0(orchestrator, path_objs, recursive, parallel, files, dirs, violations, old, rest, done):
         return orchestrator.project_root == old.orchestrator.project_root and orchestrator.config == old.orchestrator.config \
             and orchestrator.config_loader == old.orchestrator.config_loader \
@@ -186,7 +193,23 @@ class ExecuteLintingOnPaths:
             and files == files_of(path_objs) and dirs == dirs_of(path_objs) \
             and implies(len(dirs) == 0 and not parallel and len(files) > 0,
                         violations == sequential(old.orchestrator, files)) \
-            and implies(len(dirs) == 0 and len(files) == 0, len(violations) == 0)
+            and implies(len(dirs) == 0 and len(files) == 0, len(violations) == 0) \
+            and implies(len(files) == 0 and len(dirs) == 1,
+                        (len(rest) == 1 and len(violations) == 0 and orchestrator.registry.gs == old.orchestrator.registry.gs
+                         and orchestrator._rules_discovered == old.orchestrator._rules_discovered
+                         and orchestrator.ignore_parser._ignore_cache == old.orchestrator.ignore_parser._ignore_cache)
+                        or (len(rest) == 0 and violations == one_directory_result(old.orchestrator, dirs[0], recursive, parallel)))
+
+
+def one_directory_result(orch, d, recursive, parallel):
+    """Sequential: lint_files semantics on walk_files(d, recursive). --parallel: the same below the threshold 2 x workers,
+    else the pool's per-file part for the SAME file list followed by finalize() (C07-parallel-cross-file: on the parent's
+    rule objects)."""
+    return ((pool_out(walk_files(d, recursive), orch.project_root, orch.config, workers_of(None))
+             + fin_all(rules_of(ready(orch.registry.gs, orch._rules_discovered))))
+            if goes_parallel(walk_files(d, recursive), None) else
+            ([] if len(walk_files(d, recursive)) == 0 else sequential(orch, walk_files(d, recursive)))) \
+        if parallel else sequential(orch, walk_files(d, recursive))
 
 
 # ------------------------------------------------------------------------------------------ the command wrapper
@@ -1057,6 +1080,30 @@ try:
                 probs.append("SARIF: startColumn < 1")
             if probs:
                 bad.append(dict(where, problem="; ".join(probs)))
+    # "invalid option" => 2, with --parallel as without it: a value the linter's configuration rejects (from the
+    # documented constraints), on a directory large enough for the real process pool (2 x workers files)
+    many = tmp / "many"
+    many.mkdir()
+    for i in range(2 * min(8, os.cpu_count() or 1) + 1):
+        (many / f"part_{i:02d}.py").write_text(f"def part_{i}(v):\n    if v:\n        return v * {7000 + i}\n    return v\n", encoding="utf-8")
+    invalid = {"nesting": "nesting:\n  max_nesting_depth: 0\n", "srp": "srp:\n  max_methods: -1\n",
+               "file-placement": "file-placement:\n  global_deny:\n    - pattern: '([unclosed'\n      reason: r\n"}
+    for cmd, text in invalid.items():
+        cfgp = tmp / f"invalid_{cmd}.yaml"
+        cfgp.write_text(text, encoding="utf-8")
+        for extra in ([], ["--parallel"]):
+            n += 1
+            code, out = run([cmd, "--config", str(cfgp), "--format", "json"] + extra + [str(many)])
+            if code != 2:
+                bad.append({"command": cmd, "scenario": "configuration value the linter rejects" + (" with --parallel" if extra else ""),
+                            "problem": f"exit code {code} instead of 2", "stdout": out[-160:]})
+    for cmd, args in {"nesting": ["--max-depth", "0"], "srp": ["--max-methods", "0"]}.items():
+        for extra in ([], ["--parallel"]):
+            n += 1
+            code, out = run([cmd] + args + ["--format", "json"] + extra + [str(many)])
+            if code != 2:
+                bad.append({"command": cmd, "scenario": "invalid option " + " ".join(args) + (" with --parallel" if extra else ""),
+                            "problem": f"exit code {code} instead of 2", "stdout": out[-160:]})
 finally:
     shutil.rmtree(tmp, ignore_errors=True)
 print("RESULT=" + json.dumps({"cases": n, "commands": len(commands), "bad": bad[:12]}))
@@ -1070,7 +1117,8 @@ def c06_renderings_bounded(ctx):
     (Python incl. a file that does not parse, TypeScript, Rust, a path with non-ASCII characters, spaces and quotes;
     DRY and stringly-typed switched on) and on two usage errors (missing path, missing --config). Oracle from the
     property text only: the three exit codes are equal and in {0, 1, 2}; 1 iff violations are listed; usage errors
-    give 2; JSON total == number listed; JSON and SARIF list the same multiset of (rule id, file, line, column,
+    give 2 -- including option / configuration values a linter rejects, with --parallel as without it (a directory of
+    2 x workers + 1 files, so the real process pool runs); JSON total == number listed; JSON and SARIF list the same multiset of (rule id, file, line, column,
     message); the text rendering shows as many blocks; SARIF is 2.1.0 with unique rule ids covering every result and
     1-based columns."""
     import json
